@@ -944,6 +944,10 @@ fn parse_number(
         if x.is_ascii_digit() {
             chars.push(x);
         } else if x == group_separator {
+            if group_separator_index.last() == Some(&chars.len()) {
+                // two separators in a row
+                return Err("Cannot parse number".to_string());
+            }
             group_separator_index.push(chars.len());
         } else {
             break;
